@@ -332,7 +332,6 @@ MANDATORY = {
     ],
     'C09': [
         ('group::scan_files', r"walk::Walk::<'a>::run$", 0, 'the directory walk', (), ()),
-        ('group::scan_files::{closure#1}', r'::filter$', 0, 'the size filter', (), ()),
         ("walk::Walk::<'a>::visit_entry", r"Walk::<'a>::visit_file$", 0, 'visiting a file entry', ('hidden', 'follow_links', 'no_ignore', 'tpe'), (r'::starts_with$', r'DashSet.*::insert$', r'Walk::<.a>::mark_visited$', r'IgnoreStack::matches$', r'file_name_cstr$')),
         ("walk::Walk::<'a>::visit_entry", r"Walk::<'a>::visit_dir$", 0, 'visiting a directory entry', ('hidden', 'follow_links', 'no_ignore', 'tpe'), (r'::starts_with$', r'DashSet.*::insert$', r'Walk::<.a>::mark_visited$', r'IgnoreStack::matches$', r'file_name_cstr$')),
         ("walk::Walk::<'a>::visit_entry", r"Walk::<'a>::visit_link$", 0, 'visiting a link entry', ('hidden', 'follow_links', 'no_ignore', 'tpe'), (r'::starts_with$', r'DashSet.*::insert$', r'Walk::<.a>::mark_visited$', r'IgnoreStack::matches$', r'file_name_cstr$')),
